@@ -226,7 +226,34 @@ impl<'a> LoweringManager<'a> {
             }
           })
           .collect_vec();
-        let statements = self.lower_stmt_block(statements);
+        let mut loop_variables = loop_variables;
+        let mut statements = self.lower_stmt_block(statements);
+        // Both backends assign the loop variables one after another at the end of an iteration.
+        // When a loop value is another loop variable (e.g. the swap `a, b = b, a`, possibly only
+        // after the optimizer has simplified `b + 0` to `b`), a later assignment would read an
+        // already overwritten variable. Read all new values into fresh temporaries first, so that
+        // the update is parallel.
+        let reads_other_loop_variable = loop_variables.iter().any(|v| {
+          matches!(
+            &v.loop_value,
+            lir::Expression::Variable(n, _)
+              if *n != v.name && loop_variables.iter().any(|other| other.name == *n)
+          )
+        });
+        if reads_other_loop_variable {
+          for v in loop_variables.iter_mut() {
+            let temp = self.heap.alloc_temp_str();
+            let new_value = std::mem::replace(
+              &mut v.loop_value,
+              lir::Expression::Variable(temp, v.type_.clone()),
+            );
+            statements.push(lir::Statement::Cast {
+              name: temp,
+              type_: v.type_.clone(),
+              assigned_expression: new_value,
+            });
+          }
+        }
         let break_collector = if let Some(mir::VariableName { name, type_ }) = break_collector {
           Some((name, self.lower_type(type_)))
         } else {
